@@ -45,6 +45,10 @@ type FuncResult struct {
 	Errors      []string
 	Obligations []*Obligation
 	Cover       *Obligation
+	Replay      *ReplayInfo
+	InstName    string
+	Contract    *FuncContract
+	PC          *PkgContracts
 }
 
 // makeParam creates the symbolic value of a parameter.
@@ -213,6 +217,12 @@ func (en *Engine) VerifyFunction(fn *ssa.Function, fc *FuncContract, pc *PkgCont
 	}
 	st.persist = append([]*Term(nil), st.facts...)
 	sc.oldMem = entryMem
+	res.InstName = en.curFunc
+	res.Contract, res.PC = fc, pc
+	func() {
+		defer func() { recover() }()
+		res.Replay = en.buildReplay(fn, st, env, allConfigs[en.cfgName])
+	}()
 	fr.spec = sc
 	paramRegions := map[*Region]bool{}
 	for r := range st.mem {
